@@ -1,6 +1,7 @@
 import DmrVerif.Driver.Loop
 import DmrVerif.Driver.Mbxml
+import DmrVerif.Driver.MbxmlX
 
 /-! model driver for property C14 -/
 
-def main : IO Unit := Dmr.Driver.runMain [Dmr.Driver.mbxmlOp]
+def main : IO Unit := Dmr.Driver.runMain [Dmr.Driver.mbxmlOp, Dmr.Driver.mbxmlXOp]
